@@ -193,6 +193,12 @@ PROPS['C15'] = dict(
         ('TransformFacts', 'swapbitsinbytes_involutive', 'Bit-order swapping is an involution.'),
         ('TransformFacts', 'bitrev8_spec', 'Per-byte bit swapping is reversal of the 8-bit MSB-first bit list (all 256 bytes).'),
         ('TransformFacts', 'rotl8_inverse', 'Group size 1: rotating a byte left by a and then by 8-a is the identity, every amount, every byte.'),
+        ('RotFacts', 'rot_group_spec', 'ProcessRotateLeft MATCHES ITS DEFINITION, every amount, every group size, all three code branches (one-byte groups, whole-byte moves, the shifting bit-pair branch): the MSB-first bits of the rotated group are the bits of the group rotated left by the amount.'),
+        ('RotFacts', 'rot_group_inverse', 'Hence rotating a group by a and then by 8G - a is the identity, for every amount and group size.'),
+        ('RotFacts', 'rotate_left_inverse', 'Whole data (groups are rotated independently): rotating by a and then by 8G - a gives the data back.'),
+        ('RotFacts', 'processrotl_parse_undoes_build', 'ProcessRotateLeft: the rotation parse applies (a mod 8g) undoes the one build applied ((-a) mod 8g), for every integer amount a (negative, larger than the group) and every group size g >= 1.'),
+        ('RotFacts', 'comb_bits', 'One output byte of the shifting branch: (x << a) & 255 | y >> (8 - a) is the last 8 - a bits of x followed by the first a bits of y (all 7 x 256 x 256 cases, kernel-evaluated).'),
+        ('RotFacts', 'rot_group_examples', 'Instances of the three branches.'),
         ('TransformFacts', 'rotate_left_rejects', 'Data whose length is not a multiple of the group is rejected.'),
         ('TransformFacts', 'processrotl_amounts', 'The amounts used by parse (a) and build (-a), reduced modulo the group width, cancel.'),
     ],
